@@ -235,7 +235,13 @@ fn run_hist(ctx: &mut Ctx, k: u64, c25: bool) {
                 let missing: Vec<&usize> = want.difference(&got).collect();
                 let class = if !ghost.is_empty() && ghost.iter().all(|g| m.deleted.contains(*g)) {
                     "deleted-id-still-returned"
-                } else if !missing.is_empty() && missing.iter().all(|i| hist.iter().any(|h| h.starts_with(&format!("reinsert {i} "))) && !hist.iter().any(|h| h.starts_with(&format!("insert {i} ")))) {
+                } else if !missing.is_empty()
+                    && missing.iter().all(|i| hist.iter().any(|h| h.starts_with(&format!("reinsert {i} "))) && !hist.iter().any(|h| h.starts_with(&format!("insert {i} "))))
+                    // invisible because it is still counted as deleted; a re-inserted id whose tombstone is gone
+                    // (tombstone_count as implied by the history) is merely not reached by the approximate
+                    // search: the recall classes below
+                    && idx.tombstone_count() != m.deleted.len()
+                {
                     "reinserted-id-invisible"
                 } else if !missing.is_empty() {
                     let norm = |v: &Vec<f32>| v.iter().map(|x| f64::from(*x) * f64::from(*x)).sum::<f64>().sqrt();
